@@ -1,4 +1,6 @@
 import LoguruModel.Conc.Data
+import LoguruModel.Conc.ActivationLemmas
+import LoguruModel.Generated.ConcShape
 /-
 C02 – property theorems about the interleaving model `Conc.step` (for EVERY schedule: any number of
 threads, any operations, any length).  Real traces are replayed on `Conc.step` by drivers/C02.lean.
@@ -240,5 +242,39 @@ example :
     let s := run {} sched
     s.stopDone = [0] ∧ s.reg = [] ∧ (s.hs 0).stops = 1 ∧ s.sink 0 = [] ∧ s.pc 1 = .idle ∧ s.allocated = [0] := by
   decide
+
+/-! ### enable()/disable(): visibility after return (model `Conc/Activation.lean`) -/
+
+/-- ACTIVATION VISIBLE AFTER RETURN: with the publication order of the code (activation_list before
+enabled), for every schedule of any number of changing and logging threads, every completed log call used
+a rule-set version at least as new as the newest change that had returned when the call began. -/
+theorem activation_visible_after_return (sched : List (Activation.Tid × Activation.Lab)) (r v : Nat)
+    (h : (r, v) ∈ (Activation.run true {} sched).results) : r ≤ v :=
+  (Activation.inv_run sched).j7 r v h
+
+/-- a stale status can never be cached in a dict that is (or will be) published: every cache entry is at
+least as new as the rule set its dict was built for -/
+theorem no_stale_cache_entry (sched : List (Activation.Tid × Activation.Lab)) (d v : Nat)
+    (h : ((Activation.run true {} sched).dicts d).entry = some v) :
+    ((Activation.run true {} sched).dicts d).birth ≤ v :=
+  (Activation.inv_run sched).j1 d v h
+
+/-- the order matters: publishing `enabled` first lets a logging thread read the new dict and the OLD
+rule set and cache the stale status in the live dict; a call made after disable() has returned then still
+uses the old rules -/
+theorem activation_order_matters :
+    let sched : List (Activation.Tid × Activation.Lab) := [
+      (1, .startChange), (1, .acq), (1, .copy), (1, .pubEn),          -- enabled published first
+      (2, .startLog), (2, .readEn 1), (2, .readEn2 1), (2, .readAct 0), (2, .fill), (2, .done 0),
+      (1, .pubAct), (1, .rel),                                        -- the change returns (version 1)
+      (3, .startLog), (3, .readEn 1), (3, .done 0)]                   -- cache hit on the stale entry
+    (1, 0) ∈ (Activation.run false {} sched).results := by
+  decide
+
+/-- tie G: the current source publishes in the proved order, copies under the lock, and the miss path of
+`_log` reads `core.enabled` before `core.activation_list` -/
+theorem activation_shape_of_source :
+    Conc.ShapeGen.actFirst = true ∧ Conc.ShapeGen.copiesEnabledUnderLock = true ∧
+    Conc.ShapeGen.missReadsEnabledFirst = true := by decide
 
 end C02
